@@ -265,6 +265,9 @@ def _worker(args):
     from hypothesis import given, settings, seed as hseed, strategies as st, HealthCheck, Phase
     import hypothesis.internal.conjecture.engine as eng
     eng.MAX_SHRINKING_SECONDS = 45 if tier == 'quick' else 180
+    import warnings
+    warnings.filterwarnings('ignore', message='.*spent more than five minutes.*')
+    warnings.filterwarnings('ignore', category=hypothesis.errors.HypothesisWarning)
     tree = Tree(tree_dir)
     stats = Stats()
     wd = tempfile.mkdtemp(prefix='w%d-' % widx, dir=os.path.dirname(tree_dir))
